@@ -70,10 +70,10 @@ type c27Monitor struct {
 	// active precompiles; their price list (RequiredGas) is trusted, that the EVM
 	// charges exactly that price is checked
 	precompiles vm.PrecompiledContracts
-	depthErr   bool
-	topUsed    uint64
-	topStart   uint64
-	topSeen    bool
+	depthErr    bool
+	topUsed     uint64
+	topStart    uint64
+	topSeen     bool
 }
 
 // c27Abort is panicked by the monitor to stop an execution that is about to
